@@ -23,6 +23,22 @@ def write(here, prop, tier, seed, ctx, ran, facts, info, violations, known_hits,
         samples.append({'rule': r.rid, 'site': r.site, 'function': r.fn, 'verdict': 'ok' if r.ok else 'FAIL',
                         'what': r.msg})
     n_calls = sum(1 for b in facts.bodies for _ in b.terms('call'))
+    # blind spots, stated: crate functions reachable (call graph, closures included) from the bodies the rules inspected that no rule inspected
+    from .facts import norm_path as _np
+    byp = {}
+    for b in facts.bodies:
+        byp.setdefault(_np(b.path), []).append(b)
+    insp = {_np(x) for x in ctx.stats['bodies_inspected']}
+    seen, st = set(insp), list(insp)
+    while st:
+        x = st.pop()
+        for b in byp.get(x, []):
+            cs = {t.callee_res() for t in b.terms('call')} | {_np(d) for s_, d in b.closures_created()}
+            for c in cs:
+                if c and c in byp and c not in seen:
+                    seen.add(c)
+                    st.append(c)
+    uninspected = sorted(x for x in seen - insp if '{closure' not in x and byp[x][0].file().startswith('src/') and not byp[x][0].span['exp'])
     cov = {
         'explanation': EXPLANATION,
         'obligations': len(insts),
@@ -42,6 +58,7 @@ def write(here, prop, tier, seed, ctx, ran, facts, info, violations, known_hits,
             'call_sites_in_crate': n_calls,
             'bodies_inspected_by_rules': sorted(ctx.stats['bodies_inspected']),
             'n_bodies_inspected': len(ctx.stats['bodies_inspected']),
+            'reachable_functions_not_inspected': uninspected,
             'source_hash': info.get('source_hash'),
             'facts_cached': info.get('cached'),
             'extract_s': info.get('extract_s'),
